@@ -133,6 +133,8 @@ def work(item):
             st.violation("locale-changed", dict(history=hist_desc[:60]), "locale unchanged", None)
         if not cwd_ok:
             st.violation("cwd-changed", dict(history=hist_desc[:60]), "cwd unchanged", None)
+        if len(state) > 10 and state[10] != "1":
+            st.violation("process-environment-changed", dict(history=hist_desc[:60]), "floating-point rounding mode / trap mask and umask unchanged", None)
         if not errs_ok:
             st.violation("error-object-modified", dict(history=hist_desc[:60]), "error objects untouched by later calls", None)
         if sout != "-":
@@ -186,6 +188,8 @@ def work_orders(item):
             st.violation("tables-modified", dict(functions=fns, mode=which), state[1], state[2])
         if state[3] != "1":
             st.violation("locale-changed", dict(functions=fns, mode=which), "locale unchanged", None)
+        if len(state) > 10 and state[10] != "1":
+            st.violation("process-environment-changed", dict(functions=fns, mode=which), "floating-point rounding mode / trap mask and umask unchanged", None)
         if state[5] != "1":
             st.violation("error-object-modified", dict(functions=fns, mode=which), "error objects untouched by later calls", None)
         if state[7] != "-":
@@ -225,7 +229,7 @@ def run(ctx):
     ctx.rule = ("seeded histories (16 workers x %d histories, 10..%d steps + re-issued earlier steps) drawn from the C03 argument classes over every exported "
                 "function incl. failing calls, XRayInit, parser, NIST / nuclide / crystal lookups, _CP and refractive functions and the deprecated stubs, on "
                 "the Kissel-regenerated configuration under locale C.utf8; oracle: each step's encoded result == result of the same call in a fresh "
-                "forked process; FNV-1a over %d library data/bss/rodata ranges (%d bytes) equal before/after; locale, cwd, stdout/stderr, kept error "
+                "forked process; FNV-1a over %d library data/bss/rodata ranges (%d bytes) equal before/after; locale, cwd, floating-point environment, umask, stdout/stderr, kept error "
                 "objects unchanged; plus the C03 argument sweep of every function as one history in generation order and in shuffled order "
                 "(bit-identical answers, same hashes). non-trivial = history with >= 1 failing and >= 1 allocating call, distinct by history" % (nhist, length, len(ranges), ctx.extra["hashed_bytes"]))
     ctx.assumptions = ["insertions into the built-in crystal collection are excluded from histories (the property exempts them)",
